@@ -62,7 +62,7 @@ class Flow:
                                 self.uses.setdefault(e[1], []).append(("callarg", bi, t, k))
 
     # ---- backward ----------------------------------------------------------
-    def origins(self, local, passthrough=PASS_LAST, fields=None, stop_calls=(), at=None, cfg=None):
+    def origins(self, local, passthrough=PASS_LAST, fields=None, stop_calls=(), at=None, cfg=None, stores=False):
         """atoms the local can derive from: ("call", name, bb, term) / ("arg", n) /
         ("const", c) / ("agg", kinddict, bb) / ("binop", op, bb) / ("other", ...).
         `fields`, if given, is a set that collects the names of fields read on the way."""
@@ -80,6 +80,10 @@ class Flow:
             seen.add((l, here))
             st.here = here
             ds = self.defs.get(l, [])
+            if not stores:
+                # a store *through* a reference (`(*p)[i] = x`, `(*p).f = x`) changes the pointee,
+                # it does not redefine the reference
+                ds = [d for d in ds if not (d[3] and d[3][0][0] == "deref")]
             if cfg is not None and here is not None:
                 ds = [d for d in ds if d[1] == here or cfg.can_reach(d[1], here)]
             if not ds:
